@@ -75,6 +75,6 @@ theorem entryBytes_eq (k : Key) (h : klen k < 2147483648) : entryBytes k = .ok (
   have hz : (8 - (4 + ((encodeKey k).length + padLen (encodeKey k).length)) % 8) % 8 = 0 := by
     have := layout (encodeKey k).length
     omega
-  simp [h', padCountWriter_eq, hz, encEntry, klen, zeros, intWidth, padByte, le64]
+  simp [h', padCountWriter_eq, hz, encEntry, klen, zeros, intWidth, padByte, le64, entryPacksDoubles]
 
 end PromVerif.Lemmas.Mmap
